@@ -2,6 +2,7 @@ package exec
 
 import (
 	"fmt"
+	"go/types"
 
 	"verif/engine/sym"
 )
@@ -23,14 +24,46 @@ func (e *Exec) codecSeq(st *State, key string) int {
 // PayloadCap is the capacity of opaque codec outputs.
 var PayloadCap = 3
 
+// marshalVerdict: the harness types vBadEntity (never marshallable, natively too) and vEntity (always
+// marshallable) make marshalling errors reproducible natively; for every other value the error is a
+// nondeterministic stub input.
+func marshalVerdict(v Value) string {
+	if i, ok := v.(*Iface); ok && i.T != nil {
+		t := i.T
+		if p, ok := t.(*types.Pointer); ok {
+			t = p.Elem()
+		}
+		if n, ok := t.(*types.Named); ok {
+			switch n.Obj().Name() {
+			case "vBadEntity":
+				return "fail"
+			case "vEntity":
+				return "ok"
+			}
+		}
+	}
+	return ""
+}
+
+func (e *Exec) marshalFailVar(st *State, name string, v Value) *sym.Term {
+	switch marshalVerdict(v) {
+	case "fail":
+		return e.C.True
+	case "ok":
+		return e.C.False
+	}
+	failV := e.C.Var(name+"!err", 0)
+	e.addInput(st, name+"!err", "bool", failV)
+	return failV
+}
+
 func registerCodecs(m map[string]Intrinsic) {
 	// ---- marshalling: value-determined opaque output, optional error
 	marshal := func(kind string) Intrinsic {
 		return func(e *Exec, st *State, ci *CallInfo) Outcome {
 			k := e.codecSeq(st, kind)
 			name := fmt.Sprintf("%s!%d", kind, k)
-			failV := e.C.Var(name+"!err", 0)
-			e.addInput(st, name+"!err", "bool", failV)
+			failV := e.marshalFailVar(st, name, ci.Args[0])
 			return Outcome{Kind: OutAlts, Exhaustive: true, Alts: []AltOut{
 				{Cond: e.C.Not(failV), ValFn: func(s2 *State) (Value, bool) {
 					out, cons := e.NewSymStr(name, PayloadCap)
@@ -63,8 +96,7 @@ func registerCodecs(m map[string]Intrinsic) {
 			w := mv.F["w"].(*Iface)
 			k := e.codecSeq(st, kind)
 			name := fmt.Sprintf("%s!%d", kind, k)
-			failV := e.C.Var(name+"!err", 0)
-			e.addInput(st, name+"!err", "bool", failV)
+			failV := e.marshalFailVar(st, name, ci.Args[1])
 			return Outcome{Kind: OutAlts, Exhaustive: true, Alts: []AltOut{
 				{Cond: e.C.Not(failV), Do: func(s2 *State) bool {
 					out, cons := e.NewSymStr(name, PayloadCap)
